@@ -202,15 +202,36 @@ func runC05(p *core.Prog, r *core.Report) {
 					trunc = true
 				}
 			}
-			if indep {
-				pre.Instrs[st] = true
-			}
 			if indep || trunc {
+				pre.Instrs[st] = true
 				post.Instrs[st] = true
 				resetVals = append(resetVals, st.Val)
 			}
 		}
 		okPre := len(pre.Instrs) > 0 && sx.MustPass(serve, get, relay, pre)
+		if okPre {
+			// the (re)initialisation must come first: no other write of the field — directly or through a callee —
+			// is reachable from Get without passing it
+			sx.WalkFrom(serve, get, pre, func(in ssa.Instruction) bool {
+				switch x := in.(type) {
+				case *ssa.Store:
+					if fa, ok := x.Addr.(*ssa.FieldAddr); ok && sx.FieldOf(fa) == cf.f {
+						okPre = false
+					}
+				case ssa.CallInstruction:
+					if _, isB := x.Common().Value.(*ssa.Builtin); isB {
+						return true
+					}
+					for _, callee := range p.Callees(x) {
+						m, all := mayStoreFields(p, callee, 0)
+						if (all && p.InModule(callee)) || m[cf.f] {
+							okPre = false
+						}
+					}
+				}
+				return true
+			})
+		}
 		// (b) reset after the relay call on every path to Put
 		okPost := len(post.Instrs) > 0 && sx.MustPass(serve, relay, put, post)
 		switch {
@@ -222,9 +243,14 @@ func runC05(p *core.Prog, r *core.Report) {
 			r.Fail("C05-R1", c, p.FuncPos(serve), "written by "+strings.Join(uniq(writers), ", ")+" but neither assigned on every path before the relay call nor reset on every path to Put: a later request on the recycled Store observes the residue")
 		}
 		// ---- R2
-		if okPost && !okPre {
+		if okPost || okPre {
 			ctorVal := ctorFieldValue(ctor, cf)
 			for _, rv := range resetVals {
+				if _, isSl := rv.(*ssa.Slice); !isSl {
+					if _, isC := rv.(*ssa.Const); !isC || okPre {
+						continue // assigned from request data: nothing to compare with the constructor
+					}
+				}
 				// only resets that lie after the relay call
 				ok, detail := resetMatchesCtor(rv, ctorVal)
 				r.Check(ok, "C05-R2", c+": constructor installs what the reset installs", p.FuncPos(ctor), detail, detail)
